@@ -162,7 +162,7 @@ class BulkCallSite(Contract):
         except Undecided:
             s = None
         if s is None:
-            self.forbid(ctx, 'C01.helper.passes_a_sequence_of_pairs', tags=T_, note='ebunch kind %s' % (eb.kind if eb is not None else None))
+            self.shape(ctx, 'C01.helper.passes_a_sequence_of_pairs', tags=T_, note='ebunch kind %s' % (eb.kind if eb is not None else None))
         else:
             ctx.oblige('C01.helper.number_of_pairs', s.n == c.n_pairs, tags=T_, kind='call-site')
             k = c.k
@@ -171,7 +171,7 @@ class BulkCallSite(Contract):
                 a, b = c.pair(k)
                 ctx.oblige('C01.helper.pair_k', z3.Implies(z3.And(0 <= k, k < c.n_pairs), z3.And(el.items[0].z == a, el.items[1].z == b)), tags=T_, kind='call-site')
             else:
-                self.forbid(ctx, 'C01.helper.pairs_are_node_pairs', tags=T_, note='element kind %s' % el.kind)
+                self.shape(ctx, 'C01.helper.pairs_are_node_pairs', tags=T_, note='element kind %s' % el.kind)
         g.havoc('@bulk')                  # the callee's effect: not modelled here (its own contract)
         return VNone
 
